@@ -173,5 +173,16 @@ def apply(F):
                     present |= set(x["path"] for x in allb[c])
     doc = dict(doc)
     doc["bodies"] = [b for b in doc["bodies"] if b["path"] not in drop] + add
+    # helpers introduced by the respelling (not in the baseline inventory) that only the replaced bodies referred to are
+    # dead code of the representative: they were reviewed as part of the listed spelling and are not analysed separately
+    from . import inline as _inline
+    base = _inline.baseline()
+    new_fns = [b["path"] for b in doc["bodies"] if b["path"] not in base and "{closure" not in b["path"] and b.get("kind") in ("Fn", "AssocFn") and b.get("vis") != "Public"]
+    if new_fns:
+        blob = json.dumps([b.get("blocks", []) for b in doc["bodies"] if b["path"] not in new_fns])
+        dead = set(p for p in new_fns if json.dumps(p) not in blob)
+        if dead:
+            doc["bodies"] = [b for b in doc["bodies"] if b["path"] not in dead and not any(b["path"].startswith(d + "::{closure") for d in dead)]
+            doc["_dead_helpers"] = sorted(dead)
     doc["_substituted"] = {p: {"hash": e["hash"], "from": e.get("from"), "why": e.get("why")} for p, (e, _) in hits.items()}
     return doc, doc["_substituted"]
